@@ -190,6 +190,8 @@ pub enum BodyPlan {
     Sizes(Vec<usize>),
     /// read with buffers of `buf` bytes until Ok(0) or an error
     ToEof { buf: usize },
+    /// one read per size, then continue with `buf`-sized reads until Ok(0) or an error
+    Mixed { sizes: Vec<usize>, buf: usize },
 }
 
 #[derive(Clone, Debug, Serialize, Deserialize, PartialEq)]
